@@ -43,6 +43,9 @@ class InstanceTypestate:
             return s
         if isinstance(expr, ast.Compare) and len(expr.ops) == 1:
             l, op, r = expr.left, expr.ops[0], expr.comparators[0]
+            if isinstance(op, (ast.Eq, ast.NotEq, ast.Is, ast.IsNot)) and \
+                    ast.unparse(r) in (recv + '.state', recv + '._state'):
+                l, r = r, l         # CONST == x.state
             if ast.unparse(l) in (recv + '.state', recv + '._state'):
                 cs = self.ev.const_set(r)
                 if cs:
@@ -59,9 +62,13 @@ class InstanceTypestate:
 
     def exact(self, expr, recv):
         """True when expr is *equivalent* to a state-membership test of recv (so its negation is informative)."""
-        if isinstance(expr, ast.Compare) and len(expr.ops) == 1 and \
-                ast.unparse(expr.left) in (recv + '.state', recv + '._state') and self.ev.const_set(expr.comparators[0]):
-            return True
+        if isinstance(expr, ast.Compare) and len(expr.ops) == 1:
+            l, r = expr.left, expr.comparators[0]
+            if isinstance(expr.ops[0], (ast.Eq, ast.NotEq, ast.Is, ast.IsNot)) and \
+                    ast.unparse(r) in (recv + '.state', recv + '._state'):
+                l, r = r, l
+            if ast.unparse(l) in (recv + '.state', recv + '._state') and self.ev.const_set(r):
+                return True
         if isinstance(expr, ast.Attribute) and ast.unparse(expr.value) == recv and expr.attr in self.exact_props:
             return True
         if isinstance(expr, ast.Call) and isinstance(expr.func, ast.Attribute) and \
@@ -87,7 +94,7 @@ class InstanceTypestate:
                 s = self.implied(v, 'self', summ)
                 if s != self.ALL:
                     summ[nm] = s
-                    pure = isinstance(v, ast.Compare) and ast.unparse(v.left) in ('self.state', 'self._state')
+                    pure = self.exact(v, 'self') and isinstance(v, ast.Compare)
                     if pure:
                         self.exact_props.add(nm)
         return summ
